@@ -214,6 +214,13 @@ def c16_streams(rng, tier, budget):
             st2.obs_all(h, C16_OBS)
             r = st2.rt(h)
             st2.obs_all(r, ["raw_host", "str"])
+    for v6 in ["::1", "2001:db8::1", "fe80::1%eth0", "FE80::1%Eth0", "1:2:3:4:5:6:7:8", "::ffff:1.2.3.4"]:
+        for sc, dp in (("http", 80), ("https", 443), ("ws", 80), ("ftp", 21), ("x", None)):
+            for ui in ("", "u@", "u:p@"):
+                for pt in ("", ":%d" % dp if dp else ":1", ":8080", ":0"):
+                    h = st2.new("%s://%s[%s]%s/p" % (sc, ui, v6, pt))
+                    st2.obs_all(h, C16_OBS)
+                    st2.obs_all(st2.rt(h), ["raw_host", "str"])
     for _ in range(extra):
         st2.obs_all(st2.new(urlgen.rand_url_string(rng)), C16_OBS)
     yield "hosts", st2
@@ -298,12 +305,12 @@ def c17_oracle(full, io, b):
             exp_ep = None
         else:
             exp_ep = intended
-        got_ep = None if ep == "~" else int(ep)
+        got_ep = None if ep == "~" else int(ep[1:])
         if got_ep != exp_ep:
             out.append(fail(v, h, "explicit_port", f"explicit_port = {got_ep}, written port {exp_ep}", "explicit-port"))
             continue
         exp_port = exp_ep if exp_ep is not None else dflt
-        if (None if pt == "~" else int(pt)) != exp_port:
+        if (None if pt == "~" else int(pt[1:])) != exp_port:
             out.append(fail(v, h, "port", f"port = {pt}, expected {exp_port} (explicit {exp_ep}, scheme default {dflt})", "port-fallback"))
         exp_default = True if exp_ep is None else (exp_ep == dflt)
         if (idp == "T") != exp_default:
